@@ -399,12 +399,52 @@ func c01AdCall(t *simkit.Task, w *World, pub *PubNode, sub *SubNode, lst *listen
 	req0 := len(w.Net.Requests())
 	lst.drain()
 
+	// An impatient caller: the hook call for one of the blocks of the
+	// segment ends the context of the sync. The sync then fails, or it
+	// succeeds - and a successful sync has handed over the whole segment.
+	ctx, cancelledAt := bg, -1
+	if n > 0 && stop != pub.Ads[headIdx] && tp.Chance(1, 6, "hookCancels") {
+		if seg := expectChain(pub.Ads, headIdx, stop, depth); len(seg) > 0 {
+			k := tp.Choose(len(seg), "hookCancelsAt")
+			cctx, cancel := context.WithCancel(bg)
+			defer cancel()
+			ctx = cctx
+			sub.OnHook = map[cid.Cid]func(){seg[k]: func() {
+				cancel()
+				cancelledAt = k
+				r.Fault("cancel-in-hook")
+			}}
+			desc = append(desc, fmt.Sprintf("hook-cancels-at=%d", k))
+		}
+	}
 	t.Logf("SyncAdChain(%s) latest=%s", strings.Join(desc, ","), w.CidName(latest))
-	got, err := sub.Sub.SyncAdChain(bg, pub.AddrInfo(), opts...)
+	got, err := sub.Sub.SyncAdChain(ctx, pub.AddrInfo(), opts...)
 	t.Logf(" -> %s err=%v", w.CidName(got), err)
+	sub.OnHook = nil
+	if err != nil && cancelledAt >= 0 {
+		// failed: what reached the hook is the start of the segment, each
+		// block once and in order, and nothing was recorded
+		seg := namesOf(w, expectChain(pub.Ads, headIdx, stop, depth))
+		got := hookNames(sub.HooksSince(hook0))
+		if len(got) > len(seg) || len(got) <= cancelledAt || !eqStrs(got, seg[:len(got)]) {
+			r.Violate("c01.hooks", "SyncAdChain(%s) cancelled from the hook call for block %d: hook saw %v, the segment is %v", strings.Join(desc, ","), cancelledAt, got, seg)
+		}
+		if l := sub.Latest(pub); l != latest {
+			r.Violate("c01.latest", "SyncAdChain(%s) failed (%v) and latest-sync moved from %s to %s", strings.Join(desc, ","), err, w.CidName(latest), w.CidName(l))
+		}
+		t.Yield("ev")
+		if evs := lst.drain(); len(evs) != 0 {
+			r.Violate("c01.event", "%d events after a failed explicit sync", len(evs))
+		}
+		r.Probe("sync-cancelled-from-its-hook-failed")
+		return
+	}
 	if err != nil {
 		r.Violate("c01.error", "fault-free SyncAdChain(%s) failed: %v", strings.Join(desc, ","), err)
 		return
+	}
+	if cancelledAt >= 0 {
+		r.Probe("sync-cancelled-from-its-hook-succeeded")
 	}
 	hooks := sub.HooksSince(hook0)
 	blocks, heads, _ := w.BlockRequests(pub, req0)
